@@ -143,6 +143,13 @@ def impl(c):
     except Exception as e:
         res["manifest_ignore"] = "error:" + exc_class(e)
     try:
+        import warnings
+        with warnings.catch_warnings():
+            warnings.simplefilter("ignore")
+            res["manifest_from_dict_arg"] = git_objects.snapshot_git_object(s.to_dict(), ignore_unresolved=True).hex()   # deprecated route
+    except Exception as e:
+        res["manifest_from_dict_arg"] = "error:" + exc_class(e)
+    try:
         res["id_perm"] = _build([c["branches"][i] for i in c["perm"]]).id.hex()
     except Exception as e:
         res["id_perm"] = "error:" + exc_class(e)
@@ -207,6 +214,8 @@ def oracle(c, ires, mres):
         return "id is not the SHA-1 of the manifest"
     if man != spec_manifest(b):
         return "manifest differs from the documented one (sorted by name, kind SP name NUL len ':' target)"
+    if ires["manifest_from_dict_arg"] != ires["manifest_ignore"]:
+        return "snapshot_git_object(<dict>) differs from snapshot_git_object(<Snapshot>)"
     if ires["id_perm"] != ires["id"] or ires["id_from_dict"] != ires["id"]:
         return "id depends on insertion order or on the construction route"
     if ires["swhid"] != "swh:1:snp:" + ires["id"]:
